@@ -593,7 +593,7 @@ func RunMain(id, tier string, replayIdx int) int {
 				// memory cap so that an allocation bomb becomes an observable failure
 				limitKB := 8 << 20
 				if race {
-					limitKB = 40 << 20
+					limitKB = 24000000
 				}
 				sh := fmt.Sprintf("ulimit -v %d; exec \"$0\" \"$@\"", limitKB)
 				cmd.Args = append([]string{"bash", "-c", sh, bin}, cmd.Args[1:]...)
@@ -786,7 +786,7 @@ func classifyDeath(stderr string, werr error) (kind, site string) {
 		return "watchdog", "case-timeout"
 	case strings.Contains(stderr, "stack overflow") || strings.Contains(stderr, "goroutine stack exceeds"):
 		return "fatal:stack-overflow", recursionSite(stderr)
-	case strings.Contains(stderr, "out of memory") || strings.Contains(stderr, "cannot allocate memory"):
+	case strings.Contains(stderr, "out of memory") || strings.Contains(stderr, "cannot allocate memory") || strings.Contains(stderr, "too many address space collisions"):
 		return "fatal:oom", fatalSite(stderr)
 	case strings.Contains(stderr, "concurrent map"):
 		return "fatal:concurrent-map", fatalSite(stderr)
